@@ -261,6 +261,10 @@ def select_mask(i, a, m, node):
     i.ctx.assume(z3.ForAll([k], z3.Implies(z3.And(k >= 0, k < cnt),
                                            z3.Select(r.data, k) == z3.Select(a.data, idx(m.data, to_z3(n, Int), k))),
                            patterns=[z3.Select(r.data, k)]))
+    p = z3.Int("p!selb2")
+    i.ctx.assume(z3.ForAll([p], z3.Implies(z3.And(p >= 0, p < to_z3(n, Int), z3.Select(m.data, p)),
+                                           z3.Select(r.data, rank(m.data, p)) == z3.Select(a.data, p)),
+                           patterns=[z3.MultiPattern(z3.Select(m.data, p), z3.Select(a.data, p))]))
     return r
 
 
